@@ -515,6 +515,8 @@ func checkC19(p *Prog, r *Report) {
 				fmt.Sprintf("%d functions in block-processing scope; no long-lived memory of the three modules is both written and read", len(cscope)))
 		}
 		checkStartupCreatesNoContext(p, r, kp)
+		checkPersistentStoresOnly(p, r, kp, "a node restarted around the upgrade height holds other data than one that kept running")
+		checkNoProcessMemoryRegistrationInBlocks(p, r, kp, cscope)
 	}
 
 	// D4e the in-place migrations the three data modules register run inside the upgrade block (RunMigrations): they rewrite no
